@@ -34,6 +34,12 @@ static const enum msg_ctrl_code ctrl_msgs[] = {
 static MPI_Request reduce_sum_scatter_req = MPI_REQUEST_NULL;
 /// The MPI request associated with the non blocking all reduce collective
 static MPI_Request reduce_min_req = MPI_REQUEST_NULL;
+/// The MPI request associated with the non blocking node barrier
+static MPI_Request node_barrier_req = MPI_REQUEST_NULL;
+/// The communicator used by the non blocking node barrier
+/** Collectives on a communicator must be started in the same order by all the nodes: the non blocking barrier is started
+ *  at a different moment on each node with respect to the GVT collectives, so it needs a communicator of its own */
+static MPI_Comm node_barrier_comm = MPI_COMM_NULL;
 
 /**
  * @brief Handles a MPI error
@@ -85,6 +91,8 @@ void mpi_global_init(int *argc_p, char ***argv_p)
 	nid = helper;
 	MPI_Comm_size(MPI_COMM_WORLD, &helper);
 	n_nodes = helper;
+
+	MPI_Comm_dup(MPI_COMM_WORLD, &node_barrier_comm);
 }
 
 /**
@@ -95,6 +103,8 @@ void mpi_global_fini(void)
 	MPI_Errhandler err_handler;
 	MPI_Comm_get_errhandler(MPI_COMM_WORLD, &err_handler);
 	MPI_Errhandler_free(&err_handler);
+
+	MPI_Comm_free(&node_barrier_comm);
 
 	MPI_Finalize();
 }
@@ -320,6 +330,28 @@ bool mpi_reduce_min_done(void)
 void mpi_node_barrier(void)
 {
 	MPI_Barrier(MPI_COMM_WORLD);
+}
+
+
+/**
+ * @brief Starts a non blocking barrier across all the nodes
+ *
+ * To be used when the calling thread must keep serving MPI traffic and GVT reductions while waiting for the other nodes.
+ */
+void mpi_node_barrier_start(void)
+{
+	MPI_Ibarrier(node_barrier_comm, &node_barrier_req);
+}
+
+/**
+ * @brief Checks if a previous mpi_node_barrier_start() operation has completed
+ * @return true if all the nodes have entered the barrier, false otherwise
+ */
+bool mpi_node_barrier_done(void)
+{
+	int flag = 0;
+	MPI_Test(&node_barrier_req, &flag, MPI_STATUS_IGNORE);
+	return flag;
 }
 
 /**
